@@ -191,7 +191,7 @@ func c13Scenarios(thorough bool) []*explore.Scenario {
 func init() {
 	register(&Prop{ID: "C13", Level: "exploration", Variant: "A", Scenarios: c13Scenarios,
 		Run: func(c *explore.Check, thorough bool) {
-			c.Rule = "every discovered ID, randomized seeds, custom specs incl. parrot specs whose supported_versions list is cut to its first k entries while TLSVersMin..TLSVersMax stays wider (+ fingerprinted copies in thorough) x server MaxVersion {1.3,1.2,1.1,1.0} x {honours supported_versions, negotiates from legacy_version only (verif hook)} x {fresh connection, resumption of a session cached by an honest first connection} x downgrade canary {as the server sets it, stripped, each of the two RFC 8446 sentinels DOWNGRD\\x01 / DOWNGRD\\x00 forced}: a completed handshake must be at a version in the advertised set parsed from the wire (supported_versions if present, else [spec minimum .. legacy_version]); with TLS 1.3 advertised a <=1.2 ServerHello carrying either sentinel must be refused (RFC 8446 4.1.3: a TLS 1.3 client checks both values). distinct = (client, server behaviour)"
+			c.Rule = "every discovered ID, randomized seeds, custom specs incl. parrot specs whose supported_versions list is cut to its first k entries, loses its highest entry, or keeps only its first and last entry (a gap) while TLSVersMin..TLSVersMax stays wider (+ fingerprinted copies in thorough) x server MaxVersion {1.3,1.2,1.1,1.0} x {honours supported_versions, negotiates from legacy_version only (verif hook)} x {fresh connection, resumption of a session cached by an honest first connection} x downgrade canary {as the server sets it, stripped, each of the two RFC 8446 sentinels DOWNGRD\\x01 / DOWNGRD\\x00 forced}: a completed handshake must be at a version in the advertised set parsed from the wire (supported_versions if present, else [spec minimum .. legacy_version]); with TLS 1.3 advertised a <=1.2 ServerHello carrying either sentinel must be refused (RFC 8446 4.1.3: a TLS 1.3 client checks both values). distinct = (client, server behaviour)"
 			c.Assumptions = []string{"the server is the utls Server with hooks H3/H4; canary edits go through the ServerHello random hook, so the server stays self-consistent"}
 			runAll(c, c13Scenarios(thorough), 0)
 			c.Gate(c.Total.Counters["completed"] > 200, "non-vacuity: %d completed handshakes", c.Total.Counters["completed"])
@@ -242,6 +242,52 @@ func c13TrimmedVersionClients() []gridClient {
 							if real < k {
 								kept = append(kept, v)
 								real++
+							}
+						}
+						sv.Versions = kept
+					}
+				}
+				if sp.TLSVersMin == 0 {
+					sp.TLSVersMin = tls.VersionTLS10
+				}
+				if sp.TLSVersMax == 0 {
+					sp.TLSVersMax = tls.VersionTLS13
+				}
+				return &sp, nil
+			}})
+		}
+		// lists that are not a top segment: the highest version dropped (TLSVersMax stays), and — for
+		// lists of three or more — only the first and the last kept (a gap)
+		for _, shape := range []string{"without-the-highest", "first-and-last-only"} {
+			if shape == "first-and-last-only" && nv < 3 {
+				continue
+			}
+			n, shape := n, shape
+			out = append(out, gridClient{Name: fmt.Sprintf("custom:%s-versions-%s", n.Name, shape), ID: tls.HelloCustom, Spec: func() (*tls.ClientHelloSpec, error) {
+				sp, err := tls.UTLSIdToSpec(n.ID)
+				if err != nil {
+					return nil, err
+				}
+				for _, e := range sp.Extensions {
+					if sv, ok := e.(*tls.SupportedVersionsExtension); ok {
+						var real []uint16
+						for _, v := range sv.Versions {
+							if v&0x0f0f != 0x0a0a {
+								real = append(real, v)
+							}
+						}
+						keep := map[uint16]bool{}
+						if shape == "without-the-highest" {
+							for _, v := range real[1:] {
+								keep[v] = true
+							}
+						} else {
+							keep[real[0]], keep[real[len(real)-1]] = true, true
+						}
+						var kept []uint16
+						for _, v := range sv.Versions {
+							if v&0x0f0f == 0x0a0a || keep[v] {
+								kept = append(kept, v)
 							}
 						}
 						sv.Versions = kept
